@@ -1,6 +1,6 @@
 (* C08 - arguments reach the task function unchanged and bound to the right parameters. *)
 From Coq Require Import List Bool Arith.
-From TQ Require Import Params ParamsProofs FindingsParams.
+From TQ Require Import Params ParamsProofs ParamsRaise ParamsCheck FindingsParams.
 Import ListNotations.
 
 (* Binding, validate_params on.  For every signature made of positional-or-keyword parameters followed by
@@ -8,17 +8,29 @@ Import ListNotations.
    as sent (pycall on the message's args and the resolved dependencies updated with the message's kwargs):
    the function body runs and receives, parameter by parameter and with the same fill mode (positional / keyword /
    own default), `expected_rcv` of what the caller bound to it - nothing moves, appears or disappears.
-   Hypotheses on pydantic: Any validates to the input; no conversion raises outside ValueError/RuntimeError. *)
+   Hypotheses on pydantic: Any validates to the input; none of the conversions THIS call consults (`consulted`: the
+   annotation of a parameter paired with the non-None value the caller bound to it) raises outside
+   ValueError / RuntimeError. *)
 Theorem C08_binding : forall value (is_none : value -> bool) ty (is_any : ty -> bool) conv,
   (forall t v, is_any t = true -> conv t v = CVal v) ->
-  (forall t v, conv t v <> CRaise) ->
   forall (sg : list (param value)) h args kw b,
     pos_then_kw value sg = true -> NoDup (map pname sg) -> NoDup (map fst kw) ->
+    (forall t v, consulted value is_none ty sg 0 h args kw t v -> conv t v <> CRaise) ->
     pycall value sg args (dupdate (dep_kwargs value sg) kw) = Some b ->
     run_task value is_none ty conv true sg h args kw
     = Invoked (map2 (expected_rcv value is_none ty is_any conv h kw) sg b).
-Proof. exact binding. Qed.
+Proof. exact binding_local. Qed.
 Print Assumptions C08_binding.
+
+(* ... and when one of the consulted conversions does raise something else (observed only for the bare
+   pydantic.BaseModel annotation), the exception leaves parse_params and run_task: the body is not invoked *)
+Theorem C08_foreign_exception_not_invoked : forall value (is_none : value -> bool) ty conv
+    (sg : list (param value)) h args kw,
+  NoDup (map pname sg) ->
+  (exists t v, consulted value is_none ty sg 0 h args kw t v /\ conv t v = CRaise) ->
+  run_task value is_none ty conv true sg h args kw = ParseRaised.
+Proof. exact raise_not_invoked. Qed.
+Print Assumptions C08_foreign_exception_not_invoked.
 
 (* ... where the expected value is, clause by clause, the statement's: as sent for un-annotated / Any / None,
    converted when convertible, otherwise unchanged *)
@@ -94,13 +106,27 @@ Print Assumptions C08_formatter_roundtrip_partial.
 (* the Boolean form evaluated on implementation observations holds of the model's own output *)
 Theorem C08_model_meets_check : forall value (is_none : value -> bool) ty (is_any : ty -> bool) conv veqb,
   (forall t v, is_any t = true -> conv t v = CVal v) ->
-  (forall t v, conv t v <> CRaise) ->
   (forall v, veqb v v = true) ->
   forall validate sg h args kw,
     C08_check value is_none ty is_any conv veqb validate sg h args kw
               (erase value (run_task value is_none ty conv validate sg h args kw)) = true.
-Proof. exact model_meets_check. Qed.
+Proof. exact model_meets_check_local. Qed.
 Print Assumptions C08_model_meets_check.
+
+(* ... and it says what the statement says: when it is true of an observation o, in scope and for a call CPython
+   accepts, o IS "invoked, every parameter received expected(p)" (parsing on, no foreign exception) /
+   "invoked with exactly what was sent" (parsing off) *)
+Theorem C08_check_is_statement : forall value (is_none : value -> bool) ty (is_any : ty -> bool) conv veqb,
+  (forall a b, veqb a b = true -> a = b) ->
+  forall validate sg h args kw o b,
+    C08_check value is_none ty is_any conv veqb validate sg h args kw o = true ->
+    in_scope value sg kw = true ->
+    pycall value sg args (dupdate (dep_kwargs value sg) kw) = Some b ->
+    (validate = true -> conv_raises value ty conv h (args ++ map snd kw) = false ->
+       o = OInvoked (map (erase_rcv value) (map2 (expected_rcv value is_none ty is_any conv h kw) sg b))) /\
+    (validate = false -> o = OInvoked (map (erase_rcv value) b)).
+Proof. exact check_sound. Qed.
+Print Assumptions C08_check_is_statement.
 
 (* REFUTED on the defective parse_params of the pinned snapshot (D3, repaired by 54569d3): def f(a, b: int) sent
    ("5", "7") receives (5, "7") where ("5", 7) is due.  Replay: corpus/C08/d3_unannotated_before_annotated.json *)
@@ -150,3 +176,9 @@ Example C08_binding_nonvacuous :
   run_task nat nis_none nat ex_conv true ex_sig ex_hints [1; 2] [(0, 1)] = CallTypeError /\
   run_task nat nis_none nat ex_conv true ex_sig ex_hints [1; 0] [] = Invoked [RPos 1; RPos 0; RDefault; RDefault; RKw 9; RDefault].
 Proof. vm_compute. repeat split. Qed.
+
+(* def f(m: BaseModel) sent a dict: the one consulted conversion raises AttributeError *)
+Example C08_foreign_exception_nonvacuous :
+  run_task nat nis_none nat (fun t v => if (t =? 1) && (v =? 1) then CRaise else CSwallowed) true
+           [mkParam 0 KPos false None] [(0, 1)] [1] [] = ParseRaised.
+Proof. vm_compute. reflexivity. Qed.
